@@ -6,7 +6,7 @@ injected run failures, forcing, simulated and real interpreter restarts.  Every 
 (a) the Lean store machine and (b) the reference evaluation of the task's provenance term from the CURRENT configuration."""
 import concurrent.futures
 
-from tcv import machine, pipeline as pl
+from tcv import gen, machine, pipeline as pl
 from tcv.quiet import quiet
 
 RULE = ('seeded histories (8-30 operations, 2-4 configuration variants incl. contexts / for_namespaces / double mounting, all data '
@@ -15,9 +15,13 @@ RULE = ('seeded histories (8-30 operations, 2-4 configuration variants incl. con
         'forced/in-memory/stored sets) and with the reference provenance term of the current configuration; '
         'distinct = distinct (pipeline, variants, op list); non-trivial = at least 2 objects and 5 operations')
 ASSUMPTIONS = ['task computations are deterministic functions of their declared parameters and inputs (generated tasks return provenance terms)',
-               'parameter mode; user-defined repr() injective; sha256[:32] collision-free on the occurring key texts',
+               'parameter mode (name mode: one configuration per data directory, no file mounted twice); user-defined repr() injective; sha256[:32] collision-free on the occurring key texts',
                'K1 (quotes in strings) is excluded from these generators (covered by C03); K3 (== default) is in the domain and reported as KNOWN-FINDING']
 TRUSTED = ['chain structure (objects, edges, locations, used inputs) extracted from the implementation; its correctness is C08/C09']
+
+
+# (all kinds, and results streamed through GeneratedDataLazy whose failing runs fail while the result is written)
+KINDS01 = gen.KINDS_P + ['genlazy', 'genlazy']
 
 
 def value_oracle(ctx, case, hist, maps, spec):
@@ -62,16 +66,66 @@ def k3_witness(ctx):
     b.cleanup_module()
 
 
+def name_mode_probe(ctx):
+    """the same promise in name mode (`parameter_mode=False`), each configuration on its own fresh data directory (there the key is the
+    config's name, so two configurations must not share a directory — by design): the chain's edges are the declared ones (executable
+    reference builder) and every value is the reference evaluation of the task's provenance term.  Families without a file mounted
+    twice (in name mode a twice-mounted file shares its task objects across the mounts)."""
+    root = ctx.tmpdir()
+    for h in range(ctx.n(14, 120)):
+        rng = ctx.rng('name-mode', h)
+        spec, variants = machine.gen_family(rng, rich=True, kinds=[k for k in machine.gen.KINDS_P if k not in ('dir', 'continues')])
+        b = pl.materialize(spec, root / f'nm{h}' / 'src', modname=spec['module'])
+        mod = b.module()
+        mod.RUNLOG.clear(); mod.FAIL.clear(); mod.DONE.clear()
+        for vi, v in enumerate(variants[:3]):
+            used = [u.split(' as ')[0] for u in spec['files']['main_' + v['file']].get('uses', [])]
+            if len(set(used)) < len(used):
+                ctx.count('name-mode:double-mount-skipped'); continue
+            case = {'probe': 'name mode', 'module': spec['module'], 'variant': v['file'], 'spec': spec, 'variants_full': variants}
+            chain, err = pl.build(b, root / f'nm{h}' / f'd{vi}', main='main_' + v['file'], context=v.get('context_disk') or v.get('context'),
+                                  parameter_mode=False)
+            pchain, perr = pl.build(b, root / f'nm{h}' / f'p{vi}', main='main_' + v['file'], context=v.get('context_disk') or v.get('context'))
+            ctx.case({k: x for k, x in case.items() if k not in ('spec', 'variants_full')}, nontrivial=chain is not None)
+            if chain is None:
+                ctx.count('name-mode:construction-error')
+                if pchain is not None and err != 'bad_type':
+                    ctx.diverge('family:construction(name mode)', case, err, 'constructible in parameter mode')
+                continue
+            ctx.count('name-mode:chains')
+            w = machine.wiring_check(spec, v, b, chain)
+            if w:
+                ctx.fail('a chain wires a task to other inputs than its configuration declares (foreign upstream)', case, dict(w, mode='name'))
+                continue
+            for name, task in chain.tasks.items():
+                kind = machine.class_of(task, spec)['kind']
+                try:
+                    value = mod.unwrap(kind, task.value)
+                except Exception as e:  # noqa
+                    ctx.fail('value request raised although no run was told to fail', case, {'task': name, 'exception': f'{type(e).__name__}: {e}'[:300]})
+                    break
+                ctx.count('name-mode:values-compared')
+                if isinstance(value, dict) and value.get('t') == '__EMPTY__':
+                    continue
+                exp = machine.expected_term(task, spec, variant=v, name=name)
+                if value != exp:
+                    ctx.fail('a chain returned a value that is not what the task computes from its current configuration (stale or foreign result)',
+                             case, {'task': name, 'mode': 'name', 'returned': value, 'expected': exp},
+                             known='K3' if machine.k3_in_closure(task, spec) else None)
+                    break
+        b.cleanup_module()
+
+
 def run(ctx):
     quiet()
-    machine.run_batch(ctx, ctx.n(70, 900), allow={'fail', 'force', 'restart'}, label='c01', oracle=value_oracle, rich=True)
+    machine.run_batch(ctx, ctx.n(70, 900), allow={'fail', 'force', 'restart'}, label='c01', oracle=value_oracle, rich=True, kinds=KINDS01)
     # ---- real interpreter restarts
     n = ctx.n(6, 60)
     root = ctx.tmpdir()
     jobs = []
     for h in range(n):
         rng = ctx.rng('proc', h)
-        spec, variants = machine.gen_family(rng, rich=True)
+        spec, variants = machine.gen_family(rng, rich=True, kinds=KINDS01)
         ops = machine.gen_ops(rng, spec, variants, rng.randint(10, 24), {'fail', 'force', 'restart'})
         # make sure there are restarts
         k = len(ops) // 2
@@ -115,6 +169,7 @@ def run(ctx):
                 if v['value'] != v['expected']:
                     ctx.fail('a chain returned a value that is not what the task computes from its current configuration (stale or foreign result)',
                              case, v, known='K3' if v['k3'] else None)
+    name_mode_probe(ctx)
     k3_witness(ctx)
 
 
